@@ -6,6 +6,13 @@ from rules import c10
 def check(ctx):
     tab = T.build(ctx)
     T.rules_c04(ctx, tab)
+    # R7: a stale pause record makes a later resume jump, so the record must be rewritten whenever an animated state is
+    # left for an un-animated one (the rows of C05/R1-R2)
+    n0 = len(ctx.obs)
+    T.rules_c05(ctx, tab)
+    for o in ctx.obs[n0:]:
+        o["key"] = o["key"].replace("C04/R1/", "C04/R7/").replace("C04/R2/", "C04/R7/")
+        o["rule"] = "R7"
     # R6: override scope = shared truth tables of C10 (first forward pass only, frame 0 only)
     c10.rules_override_scope(ctx, prefix="R6")
     ctx.notes.append("not decided: that update at time 0 reproduces the override exactly as a float value "
